@@ -95,8 +95,10 @@ def gen_program(rng, role, nobj, nops):
             elif r < 0.80:
                 ops += [['w', grp], ['a']]
                 i += 1
-            elif r < 0.90:
+            elif r < 0.88:
                 ops.append(['b'])
+            elif r < 0.94:
+                ops.append(['u', rng.choice([0, 0, 0, 1, 2])])       # undo a recent commit (FileStorage)
             else:
                 ops.append(['x'])
         i += 1
@@ -112,6 +114,8 @@ def gen_case(rng, thorough, idx):
     for t, role in enumerate(roles):
         role2 = role if role != 'mixed' else rng.choice(['writer', 'reader'])
         progs['t%d' % t] = gen_program(rng, role2, nobj, rng.choice([4, 6, 8, 10]))
+    if kind != 'file':
+        progs = {t: [op for op in ops if op[0] != 'u'] for t, ops in progs.items()}
     pack = kind == 'file' and rng.random() < (0.25 if thorough else 0.15)
     if pack:
         progs['pk'] = [['pack']] * rng.choice([1, 1, 2])
@@ -229,11 +233,27 @@ def instrumented(run):
             if run.tracer:
                 run.tracer.leave_load(t, self, oid, r)
 
+    ucls = M.UndoAdapterInstance
+    o_ufin = ucls.tpc_finish
+
+    def undo_tpc_finish(self, transaction, func=lambda tid: None):
+        got = []
+
+        def f(tid):
+            got.append(tid)
+            func(tid)
+        r = o_ufin(self, transaction, f)
+        if got:
+            run.commits.append(dict(tid=u64(got[0]), thread=tname(), ret=run.tick(), undo=True))
+        return r
+
     cls.poll_invalidations, cls.tpc_finish, cls.load = poll_invalidations, tpc_finish, load
+    ucls.tpc_finish = undo_tpc_finish
     try:
         yield
     finally:
         cls.poll_invalidations, cls.tpc_finish, cls.load = o_poll, o_fin, o_load
+        ucls.tpc_finish = o_ufin
 
 
 def worker(run, db, name, ops, nobj, explicit, stamps):
@@ -312,6 +332,34 @@ def worker(run, db, name, ops, nobj, explicit, stamps):
         if explicit:
             tm.begin()
 
+    def do_undo(k):
+        import base64
+        from ZODB.POSException import UndoError
+        from ZODB.utils import p64
+        do_abort(False)
+        mine = [c for c in run.commits if c['thread'] != 'setup']
+        if len(mine) <= k:
+            if explicit:
+                tm.begin()
+            return
+        tid = mine[-1 - k]['tid']
+        if explicit:
+            tm.begin()
+        if tr:
+            tr.pre_undo(name, tid)
+        try:
+            db.undo(base64.encodebytes(p64(tid)).rstrip(), tm.get())
+            tm.commit()
+            run.errors.append((name, 'undo', 'ok'))
+        except (UndoError, ConflictError) as e:
+            run.errors.append((name, 'undo-failed', type(e).__name__))
+            tm.abort()
+        finally:
+            if tr:
+                tr.post_commit(name, st['conn'])
+        if explicit:
+            tm.begin()
+
     def do_begin():
         if tr:
             tr.abort(name, st['conn'])
@@ -343,6 +391,8 @@ def worker(run, db, name, ops, nobj, explicit, stamps):
                     boundary(do_abort)
                 elif k == 'b':
                     boundary(do_begin)
+                elif k == 'u':
+                    boundary(lambda: do_undo(op[1]))
                 elif k == 'ic':
                     db._mvcc_storage.invalidateCache()   # what a storage does after a reconnect
                 elif k == 'x':
